@@ -1547,6 +1547,11 @@ def check_obj(im, o):
     if k == "history":
         return check_history(im, dec(o["vcc"]), dec_ops(o["ops"]))
     if k == "convert":
+        if any(u is not None and not (0 <= u < len(im.names)) for u in (o["a"], o["b"], o.get("c"))):
+            # the witness names a built-in unit this tree does not have (it was found on a tree that defines more units)
+            print("unit index %r does not exist in this tree (built-in units: %r): nothing to re-evaluate" % (
+                [o["a"], o["b"], o.get("c")], list(im.names)))
+            return None
         return check_convert(im, o["clause"], o["a"], o["b"], o.get("c"), dec(o["x"]), dec(o.get("y")))
     if k == "forest":
         spec = [(p, dec(a), dec(b)) for p, a, b in o["forest"]]
